@@ -1451,6 +1451,7 @@ class Lib:
                 self.apply_fs_effects(st, fc)
             self.ext.call_effects(st, fc, env, pre)
             outcomes = ["normal"] + list(fc.raises.keys())
+            site = (fc.qualname, line, tuple(st.decisions))
             c = st.choose(len(outcomes), f"call:{fc.qualname}@{line}") \
                 if len(outcomes) > 1 else 0
             st.old = pre
@@ -1464,13 +1465,21 @@ class Lib:
                     if not cl.internal:
                         st.assume(eng.spec_bool(st, cl))
                 if not st.feasible(z3.BoolVal(True)):
-                    raise E.PathEnd()   # the callee cannot return normally here
+                    # the callee cannot return normally here (legitimate when
+                    # another outcome is feasible, e.g. __exit__ with an
+                    # exception in flight; a call site with NO feasible
+                    # outcome is reported by Engine.verify: vacuity guard)
+                    eng.site_bad.setdefault(site, (fc.qualname, line))
+                    raise E.PathEnd()
+                eng.site_ok.add(site)
                 return result
             exc = outcomes[c]
             for cl in fc.raises[exc]:
                 st.assume(eng.spec_bool(st, cl))
             if not st.feasible(z3.BoolVal(True)):
+                eng.site_bad.setdefault(site, (fc.qualname, line))
                 raise E.PathEnd()       # this exceptional outcome is impossible here
+            eng.site_ok.add(site)
             raise E.RaiseEx(exc, line, f"from {fc.qualname}")
         finally:
             st.locals = saved_locals
@@ -2000,7 +2009,9 @@ class Lib:
     def sp_fresh(self, st, node):
         eng = self.eng
         v = eng.eval(st, node.args[0])
-        return VBool(v.t >= st.old["next_ref"])
+        # allocated during this call: at or above the entry frontier and
+        # below the current one
+        return VBool(z3.And(v.t >= st.old["next_ref"], v.t < st.next_ref))
 
     def sp_failed(self, st, node):
         return VBool(bool(st.ghost.get("__failed")))
